@@ -726,7 +726,9 @@ def main(ctx):
     ctx.notes.append("chunks-at-block-marks: integer constants harvested from sfile.py, recfile/Util.py, recfile/*.cpp: %r" % (_hb,))
     lcunits = [(m, d, sh, dl, rt) for m in cmarks for d in (-1, 0, 1) for sh in ("long-short", "short-long", "long-long", "short-long-short")
                for dl in (None, ",") for rt in ("append-by-reopen", "one-handle", "recfile")
-               if not (dl == "," and (m > 100000 or d != 0))]
+               if not (dl == "," and (m > 100000 or d != 0))
+               # quick tier: the multi-million-row marks in the two shapes that put the long chunk first / last
+               and not (ctx.quick and m > 1000000 and (sh in ("long-long", "short-long-short") or rt == "one-handle" and d != 0))]
     ctx.lattice("chunks-at-block-marks", lcunits, one_longchunk,
                 bounds=dict(marks=list(cmarks), offsets=[-1, 0, 1], shapes=["long-short", "short-long", "long-long", "short-long-short"],
                             routes=["append-by-reopen", "one-handle", "recfile"], text="only the 100000 mark, exact size"))
